@@ -177,7 +177,10 @@ impl LazyScopedVariables {
     }
 
     pub(super) fn evaluate_all(&self, exec: &mut EvaluationContext) -> Result<(), ExecutionError> {
-        for (name, cell) in &self.variables {
+        // force in name order instead of hash order, so the first error is deterministic
+        let mut variables = self.variables.iter().collect::<Vec<_>>();
+        variables.sort_by(|a, b| a.0.cmp(b.0));
+        for (name, cell) in variables {
             let values = cell.replace(ScopedValues::Forcing);
             let map = self.force(name, values, exec)?;
             cell.replace(ScopedValues::Forced(map));
